@@ -97,7 +97,8 @@ def gen_case(rng):
     elif r < 0.3:
         for f in range(11):
             if rng.random() < 0.4:
-                flags[f] = rng.random() < 0.4
+                # flag values are int or bool (docs.md): off is False or 0
+                flags[f] = rng.choice((True, False, False, 0, 0, 1))
     elif r < 0.38:
         flags['ts_threshold'] = rng.choice((0, -1, 1, 10, 61, 10**6))
         flags['epoch_threshold'] = rng.choice((0, 1, 10, 61))
